@@ -54,6 +54,8 @@ SPACES_ALL = {**SPACES, **THOROUGH_SPACES}
 def units(tier):
     names = list(SPACES) + (list(THOROUGH_SPACES) if tier == "thorough" else [])
     out = [(f"handbuilt[{n}]", "u_hand", {"name": n}) for n in names]
+    # interpolation_info listed in another order than the array axes
+    out += [(f"handbuilt[{n}, interpolation_info reversed]", "u_hand", {"name": n, "rev": True}) for n in ("2cont[3x2]", "2sparse+2cont", "1dense+3cont")]
     out += [(f"real_space[{n}]", "u_real", {"name": n}) for n in REAL_MODELS]
     out += [("loggrid[1 log state + 1 dense, n=3]", "u_log", {"n": 3})]
     if tier == "thorough":
@@ -69,7 +71,7 @@ def dg(n):
     return DiscreteGrid(make_dataclass(f"L{n}", [(f"c{i}", int, i) for i in range(n)]))
 
 
-def build_space(spec):
+def build_space(spec, rev=False):
     from lcm import LinspaceGrid
     from lcm.interfaces import IndexerInfo, SpaceInfo
 
@@ -81,7 +83,7 @@ def build_space(spec):
     info = SpaceInfo(
         axis_names=(["state_index"] if sparse else []) + dn + cn,
         lookup_info={n: dg(k) for n, k in zip(sn + dn, sparse + dense)},
-        interpolation_info=grids,
+        interpolation_info=dict(reversed(list(grids.items()))) if rev else grids,  # dict order need not be the axis order
         indexer_infos=[IndexerInfo(axis_names=sn, name="state_indexer", out_name="state_index")] if sparse else [],
     )
     return info, sn, dn, cn, grids
@@ -209,9 +211,9 @@ def check_representation(rec, S, info, sn, dn, cn, grids, sizes, vshape, indexer
                     rec.prove(f"node{tag}[{scombo},{r},{dcombo},{node}]", impl == sj.z(sub[node]), npre, replay=replay)
 
 
-def u_hand(rec, name):
+def u_hand(rec, name, rev=False):
     spec = SPACES_ALL[name]
-    info, sn, dn, cn, grids = build_space(spec)
+    info, sn, dn, cn, grids = build_space(spec, rev)
     sparse, rows, dense, conts = spec
     sizes = dict(zip(sn + dn, sparse + dense))
     vshape = ((rows,) if sparse else ()) + tuple(dense) + tuple(k for (_, _, k) in conts)
